@@ -45,6 +45,8 @@ type Step struct {
 	AST       bool   `json:"ast"`
 	Tree      bool   `json:"tree"`
 	Pretty    bool   `json:"pretty,omitempty"` // also print the tree through PrettyPrint
+	Reinit    bool   `json:"reinit,omitempty"` // this step calls Init again on the same instance (new Buffer, same options) instead of Reset
+	GC        bool   `json:"gc,omitempty"`     // run a garbage collection before this step (unwoven race tier only)
 	AbortPred int    `json:"abort_pred,omitempty"`
 	AbortAct  int    `json:"abort_act,omitempty"`
 	// selectors: resolved at run time into AbortPred/AbortAct = 1 + sel mod
@@ -404,9 +406,21 @@ func runProg(p Prog) []Obs {
 	var inst simrt.Instance
 	var out []Obs
 	for k, st := range p.Steps {
-		if k == 0 {
+		if st.GC && simrt.NSites == 0 {
+			runtime.GC()
+			runtime.Gosched()
+		}
+		switch {
+		case k == 0:
 			inst = g.New(p.Cfg, st.Input)
-		} else {
+		case st.Reinit:
+			inst.SetBuffer(st.Input)
+			if ri, ok := inst.(interface{ Reinit(simrt.InstCfg) }); ok {
+				ri.Reinit(p.Cfg)
+			} else {
+				inst.Reset()
+			}
+		default:
 			inst.SetBuffer(st.Input)
 			inst.Reset()
 		}
@@ -1061,7 +1075,19 @@ func deriveInput(r *simrt.SplitMix64, g *GrammarInfo, prev string) string {
 	if len(other) > 200 {
 		other = other[:200]
 	}
-	switch r.Intn(5) {
+	switch r.Intn(7) {
+	case 5, 6:
+		// stray bytes that are not UTF-8 on their own, put into or over the
+		// previous input (every Go string is a legal Buffer)
+		b := []byte(prev)
+		bad := []byte{0xff, 0x80, 0xc0, 0xfe, 0xed}[r.Intn(5)]
+		if len(b) == 0 || r.Chance(1, 2) {
+			p := r.Intn(len(b) + 1)
+			b = append(b[:p], append([]byte{bad}, b[p:]...)...)
+		} else {
+			b[r.Intn(len(b))] = bad
+		}
+		return string(b)
 	case 0:
 		if len(prev) > 0 {
 			return prev[:r.Intn(len(prev))]
@@ -1089,10 +1115,29 @@ func pickCfg(r *simrt.SplitMix64, g *GrammarInfo) simrt.InstCfg {
 	// every instantiation the property names; the shipped grammars' real
 	// inputs (a few thousand runes, far fewer tokens than 65 535) fit uint16 too
 	cfg.U = r.Intn(4)
+	if r.Chance(1, 10) {
+		cfg.U = 4 // uint8: the driver falls back to uint16 when the input has 255 runes or more
+	}
 	cfg.Size = []int{0, 0, 1, 7, 1 << 15}[r.Intn(5)]
 	cfg.Pretty = r.Chance(1, 4)
 	cfg.ShareOpts = r.Chance(1, 2)
+	cfg.OptOrder = r.Intn(6)
 	return cfg
+}
+
+// fitU keeps the uint8 instantiation for programs all of whose inputs have
+// fewer than 250 bytes (the property only promises independence of U "as
+// long as the input fits that type").
+func fitU(cfg *simrt.InstCfg, inputs ...string) {
+	if cfg.U != 4 {
+		return
+	}
+	for _, in := range inputs {
+		if len(in) >= 250 {
+			cfg.U = 1
+			return
+		}
+	}
 }
 
 func pickEntry(r *simrt.SplitMix64, g *GrammarInfo) int {
@@ -1104,6 +1149,7 @@ func pickEntry(r *simrt.SplitMix64, g *GrammarInfo) int {
 
 func genMarathon(r *simrt.SplitMix64, g *GrammarInfo, period int) *Marathon {
 	m := &Marathon{Period: period, Cycles: 2}
+	_ = m
 	best := g.Inputs[r.Intn(len(g.Inputs))]
 	for range 6 {
 		if c := g.Inputs[r.Intn(len(g.Inputs))]; len(c) < len(best) {
@@ -1128,6 +1174,7 @@ func genC06(seed uint64, i int) Case {
 	if i%1500 == 5 {
 		if sg, sw := genSweep(r); sw != nil {
 			c := Case{Mode: "c06", Run: i, Grammar: sg.Name, Entry: -1, Cfg: pickCfg(r, sg), Sweep: sw}
+			c.Cfg.U %= 4
 			c.FaultCfg.Den = 64
 			if r.Chance(1, 3) {
 				c.Cfg.Size = sw.Boundary
@@ -1143,10 +1190,12 @@ func genC06(seed uint64, i int) Case {
 		case i%25000 == 17:
 			c.Marathon = genMarathon(r, g, 65536)
 			c.Entry, c.FaultCfg.Den = -1, 64
+			c.Cfg.U %= 4
 			return c
 		case i%1500 == 11:
 			c.Marathon = genMarathon(r, g, 256)
 			c.Entry, c.FaultCfg.Den = -1, 64
+			c.Cfg.U %= 4
 			return c
 		case i%20 == 3:
 			for range 2 + r.Intn(9) {
@@ -1160,8 +1209,10 @@ func genC06(seed uint64, i int) Case {
 				c.History = append(c.History, in)
 			}
 			c.Entry, c.Input = -1, ""
+			fitU(&c.Cfg, c.History...)
 		}
 	}
+	fitU(&c.Cfg, c.Input)
 	c.FaultCfg.Den = 64
 	rates := []uint32{0, 4, 16, 32}
 	kind := r.Intn(8)
@@ -1209,6 +1260,8 @@ func genProg(r *simrt.SplitMix64, g *GrammarInfo, minSteps, maxSteps int, faults
 		if r.Chance(1, 8) {
 			st.Entry = pickEntry(r, g)
 		}
+		st.Reinit = k > 0 && r.Chance(1, 10)
+		st.GC = r.Chance(1, 12)
 		if faults && g.HasHost && r.Chance(1, 3) {
 			if r.Chance(1, 2) {
 				st.AbortPredSel = r.Uint32() | 1
@@ -1218,6 +1271,9 @@ func genProg(r *simrt.SplitMix64, g *GrammarInfo, minSteps, maxSteps int, faults
 			}
 		}
 		p.Steps = append(p.Steps, st)
+	}
+	for _, st := range p.Steps {
+		fitU(&p.Cfg, st.Input)
 	}
 	return p
 }
@@ -1230,6 +1286,7 @@ func genC12(seed uint64, i int) Case {
 			g = sg
 			sw.Width = 24
 			cfg := pickCfg(r, g)
+			cfg.U %= 4
 			if cfg.U == 1 && sw.Boundary > 8192 {
 				cfg.U = 0
 			}
@@ -1265,6 +1322,9 @@ func genC12(seed uint64, i int) Case {
 func genC14(seed uint64, i int, race bool, cold bool) Case {
 	r := simrt.NewRNG(simrt.DeriveN(seed, "c14", i))
 	k := 2 + r.Intn(3)
+	if r.Chance(1, 10) {
+		k = 5 + r.Intn(4) // now and then a crowd
+	}
 	c := Case{Mode: "c14", Run: i, Race: race, Cold: cold}
 	first := pickGrammar(r)
 	for j := 0; j < k; j++ {
@@ -1283,6 +1343,9 @@ func genC14(seed uint64, i int, race bool, cold bool) Case {
 			}
 		}
 		maxSteps := 3
+		if r.Chance(1, 8) {
+			maxSteps = 7
+		}
 		if g.Heavy {
 			maxSteps = 1
 		}
@@ -1337,6 +1400,9 @@ func genC14(seed uint64, i int, race bool, cold bool) Case {
 					p.Steps[k].Input = ""
 				}
 			}
+		}
+		for _, st := range p.Steps {
+			fitU(&p.Cfg, st.Input)
 		}
 		c.Clients = append(c.Clients, p)
 	}
